@@ -217,7 +217,8 @@ def run_drv(trace, noabs=False, timeout=600):
                 steps.append(dict(id=m.group(1), proc=m.group(2), panic=True, reply=1, nabs=0, nwf=0, alloc=1, detail=''))
             else:
                 steps.append(dict(id=m.group(1), proc=m.group(2), panic=False, reply=int(m.group(3)), nabs=int(m.group(4)),
-                                  nwf=int(m.group(5)), alloc=int(m.group(6)), detail=m.group(7).strip()))
+                                  nwf=int(m.group(5)), alloc=int(m.group(6)), detail=m.group(7).strip(),
+                                  trace=0 if ' trace=' in m.group(7) else 1))
         elif line.startswith('DONE'):
             for t in line.split()[1:]:
                 k, _, v = t.partition('=')
@@ -231,7 +232,7 @@ def run_drv(trace, noabs=False, timeout=600):
 def first_failure(steps):
     """index of the first step that fails any relation, else None"""
     for i, s in enumerate(steps):
-        if s['panic'] or not s['reply'] or s['nabs'] or s['nwf'] or not s['alloc']:
+        if s['panic'] or not s['reply'] or s['nabs'] or s['nwf'] or not s['alloc'] or not s.get('trace', 1):
             return i
     return None
 
@@ -250,6 +251,11 @@ def classify(step):
     if step['nabs']:
         m = re.search(r'abs=(\S+)', d)
         return 'abs', (m.group(1) if m else d)
+    if not step['alloc'] or not re.search(r' ?trace=', d):
+        pass
+    if step['alloc'] and not step.get('trace', 1):
+        m = re.search(r'trace=(\S+)', d)
+        return 'trace', (m.group(1) if m else d)
     m = re.search(r'alloc=(\S+)', d)
     if m and m.group(1).startswith('cache:'):
         return 'cache', m.group(1)
